@@ -281,11 +281,11 @@ class NetAddr():
         clump = []
         acc_size = 16  # Bundle prefix + Timetag bytes.
         for s, e in elist:
-            if acc_size + s >= size:
+            if acc_size + s + 4 >= size:
                 res.append(clump)
                 clump = []
                 acc_size = 16  # Bundle prefix + Timetag bytes.
-            acc_size += s
+            acc_size += s + 4  # Element size bytes.
             clump.append(e)
         if clump:
             res.append(clump)
